@@ -163,6 +163,10 @@ def check_rk_step(ex, reg, src, name, m, sd_keys=()):
         ts, (dTime, dState) = v
         o = s.obj(selfobj)
         suffix = "" if len(normal) == 1 else "#path%d" % k
+        if isinstance(dState, Opaque) or isinstance(dTime, Opaque):
+            # the increment went through an operation the executor does not model: nothing can be said (never a violation)
+            reg.undecided(pre + "dState-formula" + suffix, "unsupported", "step", "the returned increment is an unmodelled value (%r)" % (dState,))
+            continue
         reg.ground(pre + "frame-flags-tables-and-tolerances-untouched" + suffix, "frame", "step", all(o.fields.get(f) is flags0[f] or o.fields.get(f) == flags0[f] for f in flags0), backend="symbolic-exec",
                    detail="step() leaves _explicit, _fsal, _adaptive, _adaptivity_enabled, the tables and atol / rtol as they were (the retry logic of __call__ relies on it)")
         if not implicit:
@@ -386,6 +390,10 @@ def check_splitting(ex, reg, src, name, m, separable=False):
         f = BlockVec(LinComb.app("rhs.%d" % k, cur_t, y + acc) for k in range(2))
         acc = BlockVec([acc.blocks[0] + f.blocks[0].scale(h * row[1]), acc.blocks[1] + f.blocks[1].scale(h * row[2])])
         cur_t = cur_t + h * row[1]
+    if isinstance(dS, Opaque) or (isinstance(dS, BlockVec) and any(isinstance(b_, Opaque) for b_ in dS.blocks)):
+        # the increment went through an operation the executor does not model: nothing can be said (never a violation)
+        reg.undecided(pre + "composition-of-drift-and-kick", "unsupported", "step", "the returned increment is an unmodelled value (%r)" % (dS,))
+        return None
     reg.ground(pre + "composition-of-drift-and-kick", "post", "step", dS == acc and dT == h and dT2 == h, backend="lincomb-exact",
                detail="dState == fold over the %d table rows of (drift c_i h on the position block, kick d_i h on the momentum block), stage time t + h*sum_{j<i} c_j" % n)
     reg.ground(pre + "stale-dState-unread", "frame", "step", not has_stale(dS), backend="lincomb-exact", detail="`self.dState *= 0.0` clears the previous step's increment")
